@@ -55,6 +55,7 @@ type Replica struct {
 	InBlock     bool
 	emit        func(J)
 	LastUpdates []abcitypes.ValidatorUpdate
+	OpN         int // index of the next op (events carry it as "op")
 	// QueryAfterCommit: take the committed projection through Query after every Commit
 	QueryAfterCommit bool
 }
@@ -111,7 +112,8 @@ func (r *Replica) Exec(op *Op) J {
 	if r.Dead != "" && op.Kind != "restart" {
 		return nil
 	}
-	ev := J{"replica": r.Name}
+	ev := J{"replica": r.Name, "op": r.OpN}
+	r.OpN++
 	if op.Tag != "" {
 		ev["tag"] = op.Tag
 	}
@@ -266,6 +268,15 @@ func isPrintable(s string) bool {
 	return true
 }
 
+// Close releases the resources of the application instance (end of a run).
+func (r *Replica) Close() {
+	if r.App != nil {
+		app := r.App
+		Call(func() { _ = app.Core.Stop() })
+		Call(func() { vv := app.Core.VerifView(); vv.Stake.VerifCloseLeaked(); vv.Gov.VerifCloseLeaked() })
+	}
+}
+
 // Restart kills the process (the data directory as it is on disk) and opens a
 // new instance on a copy of it.
 func (r *Replica) Restart() J {
@@ -276,6 +287,10 @@ func (r *Replica) Restart() J {
 	if err := CopyDir(src, dst); err != nil {
 		panic(err)
 	}
+	// the old process is gone: release its file handles (Stop leaves three databases open; see DESIGN.md)
+	old := r.App
+	Call(func() { _ = old.Core.Stop() })
+	Call(func() { vv := old.Core.VerifView(); vv.Stake.VerifCloseLeaked(); vv.Gov.VerifCloseLeaked() })
 	app, info, err := OpenApp(dst)
 	if err != nil {
 		ev["panic"] = err.Error()
